@@ -19,6 +19,8 @@
                                           the packet is refused at intake but the client waits for it
    "close-waits-for-discarded-disconnect" close after a stop with DISCONNECT: the reset discards the queued DISCONNECT
                                           but the client keeps waiting for it to be written (found by TLC on this spec)
+   "stale-last-connack"                   (introduced by a seeded change, not found in the pinned tree) the last CONNACK is not forgotten when a
+                                          new attempt starts, so an attempt that ends before its CONNACK is reported as a Disconnection
  All are repaired in /repo ("fix:" commits); the main instance runs with Defects = {} and a second
  instance per defect shows that TLC finds each of them when it is switched back on.
  ***************************************************************************************************)
@@ -122,7 +124,7 @@ TransitionTo(new0, p, d, so, lc, preEvents) ==
                      evD == IF new = "Stopped" THEN <<"Stopped">> ELSE <<>>
                  IN /\ cur' = new
                     /\ stopOpt' = IF new \in {"Connecting", "Stopped"} THEN "none" ELSE so
-                    /\ lastConnack' = IF new = "Connecting" THEN "none" ELSE lc
+                    /\ lastConnack' = IF new = "Connecting" /\ "stale-last-connack" \notin Defects THEN "none" ELSE lc
                     /\ SetP(p2)
                     /\ loop' = IF new = "Shutdown" THEN "exited" ELSE loop
                     /\ mon' = MonAll(mon, preEvents \o evA \o evB \o evC \o evD)
